@@ -598,6 +598,8 @@ def run(m, tier):
     from sa import tables as _tables
     results.append(_C11.r11_strict_order(m, _tables.engine_instances(m, "BlockBase"), "C17.R17"))
     results.append(_or.comment_option_owner_rule(m, "C17.R18"))
+    from rules import prog_rules
+    results.append(prog_rules.standards_rule(m, "C17.R19", tier))
     expl = ("Decides grammar inclusion at the level at which the 2008 grammar is assembled: every rule and alternative of the linked "
             "2003 registry is still reachable, in the same relative order, in the linked 2008 registry (550 rules); identity tests of "
             "the generic engine also name the 2008 overrides; 2003 code that builds an overridden class by Python name is covered by a "
